@@ -7,6 +7,8 @@
 #include <unistd.h>
 #include <poll.h>
 #include <sys/mman.h>
+#include <signal.h>
+#include <sys/time.h>
 
 #if defined(__has_feature)
 #  if __has_feature(address_sanitizer)
@@ -26,6 +28,7 @@ sim_state_t S;
 int sim_trace_on = 0;
 sim_knobs_t sim_knobs = { 0, 4, 1024, 0, 0 };
 void (*sim_on_close_hook)(int fd, int kind) = NULL;
+void (*sim_on_pipe_io_hook)(int fd, int is_write, const void *buf, ssize_t n) = NULL;
 void (*sim_on_epoll_ctl_hook)(int epfd, int op, int fd, uint32_t events, int ret, int err) = NULL;
 
 /* ================================================================= rng */
@@ -728,6 +731,40 @@ static void crash_handler(int sig, siginfo_t *si, void *uc) {
 	}
 	_exit(70);
 }
+/* Watchdog for code under test that never reaches a seam again (an endless loop in pure computation cannot be
+ * preempted or timed by the simulator). A wall-clock tick every second; when the run in progress has not moved a
+ * single scheduler step for hang_s consecutive ticks the worker reports it like a crash and dies: the driver
+ * regenerates the plan from the run index, and a fresh-process replay hangs the same way. Runs take milliseconds;
+ * the limit is thousands of times that. */
+static volatile int g_wd_running; static volatile unsigned long long g_wd_run, g_wd_last_run, g_wd_last_step; static volatile int g_wd_stagnant;
+static int g_wd_limit = 12;
+static void watchdog_handler(int sig) {
+	(void)sig;
+	if (!g_wd_running) { g_wd_stagnant = 0; return; }
+	if (g_wd_run != g_wd_last_run || S.step != g_wd_last_step) { g_wd_last_run = g_wd_run; g_wd_last_step = S.step; g_wd_stagnant = 0; return; }
+	if (++g_wd_stagnant < g_wd_limit) return;
+	{
+		char buf[300];
+		int n = snprintf(buf, sizeof(buf), "\nCRASH sig=14 addr=0 fiber=%d site=%s step=%llu ctx=%s\nLCBSIM-HANG no scheduling point reached for %d s of wall time\n", S.cur,
+		    (S.cur >= 0 && S.fb[S.cur].last_site) ? S.fb[S.cur].last_site : "-", (unsigned long long)S.step, S.ctx_tag[0] ? S.ctx_tag : "-", g_wd_limit);
+		if (n > 0) (void)!write(2, buf, (size_t)n);
+	}
+	_exit(72);
+}
+static void watchdog_arm(void) {
+	static int armed;
+	struct sigaction sa; struct itimerval it;
+	if (armed) return;
+	armed = 1;
+	if (getenv("LCBSIM_HANG_S")) g_wd_limit = atoi(getenv("LCBSIM_HANG_S"));
+	if (g_wd_limit <= 0) return;
+	memset(&sa, 0, sizeof(sa));
+	sa.sa_handler = watchdog_handler; sa.sa_flags = SA_RESTART | SA_ONSTACK; sigemptyset(&sa.sa_mask);
+	sigaction(SIGALRM, &sa, NULL);
+	it.it_interval.tv_sec = 1; it.it_interval.tv_usec = 0; it.it_value = it.it_interval;
+	setitimer(ITIMER_REAL, &it, NULL);
+}
+
 void sim_install_crash_handler(void);
 void sim_install_crash_handler(void) {
 	struct sigaction sa;
@@ -746,7 +783,9 @@ void sim_install_crash_handler(void) {
 /* ================================================================= begin / end */
 void sim_begin(const plan_t *plan) {
 	short *keep = S.dec_taken; int keep_cap = S.dec_cap;
+	g_wd_running = 0;
 	memset(&S, 0, sizeof(S));
+	g_wd_run++; g_wd_stagnant = 0; g_wd_running = 1; watchdog_arm();
 	S.dec_taken = keep; S.dec_cap = keep_cap;
 	S.plan = plan;
 	S.cur = -1;
@@ -784,6 +823,7 @@ void sim_begin(const plan_t *plan) {
 }
 
 void sim_end(sim_result_t *res) {
+	g_wd_running = 0;
 	memset(res, 0, sizeof(*res));
 	if (!S.violated && S.deferred) {
 		S.violated = 1;
@@ -853,7 +893,21 @@ void sim_fault_add(int op, const char *site, int nth, int count, int err) {
 	fr->nth = nth; fr->count = count; fr->err = err; fr->fired = 0;
 }
 int sim_faults_fired(void);
-int sim_faults_fired(void) { int n = 0; for (int i = 0; i < S.nfaults; i++) n += S.faults[i].fired; return n; }
+/* error-injecting faults that fired (short transfers are not errors: nothing may be relaxed because of them) */
+int sim_faults_fired(void) {
+	int n = 0;
+	for (int i = 0; i < S.nfaults; i++) {
+		size_t l = strlen(S.faults[i].site);
+		if (l > 6 && 0 == strcmp(S.faults[i].site + l - 6, ".short")) continue;
+		n += S.faults[i].fired;
+	}
+	return n;
+}
+int sim_fault_fired_site(const char *site) {
+	int n = 0;
+	for (int i = 0; i < S.nfaults; i++) if (0 == strcmp(S.faults[i].site, site)) n += S.faults[i].fired;
+	return n;
+}
 int sim_fault_pending_total(void) {
 	int n = 0;
 	for (int i = 0; i < S.nfaults; i++) if (!S.faults[i].fired) n++;
